@@ -3,6 +3,7 @@ from __future__ import annotations
 
 import fcntl
 import os
+import re
 import shutil
 import subprocess
 import tempfile
@@ -88,6 +89,16 @@ def build(cpp: str, wd: str, asan=False, name="sketch") -> str:
     if r.returncode != 0:
         raise CompileError(_errors(r.stderr))
     return exe
+
+
+_UL = re.compile(r"\bunsigned\s+long\b(?!\s+long)")
+_UL_LIT = re.compile(r"\b(\d+)[uU][lL]\b")
+
+
+def avr_ulong(cpp: str) -> str:
+    """The sketch with `unsigned long` rendered 32 bits wide, as on the AVR targets (it is 64-bit on the host): only then does
+    millis() arithmetic wrap in the mock the way it does on the board after 49.7 days."""
+    return _UL_LIT.sub(r"((uint32_t)\1)", _UL.sub("uint32_t", cpp))
 
 
 class Trace:
